@@ -16,6 +16,9 @@ CHECKS = {
  "C08": dict(level=MC, engine="graphwalk+tracecheck", technique="TLA+ ADT spec (DLList.tla, operations defined on node identity) model-checked by TLC; graph walk of every (list, operation, node) triple; random and long-run traces validated by TLC",
              text="TLC exhaustively checks the list specification (each node linked once, len = count, moves permute; negative control where a move loses one from len must fail) for up to 4 live / 5 created nodes over 2 payload values, emits every transition, and the real DoublyLinkedList is driven through every (state, operation) pair comparing forward walk, backward walk, len() and iteration; random histories and runs of 1500-4000 equal payloads with moves deep inside are recorded and validated by TLC.",
              note="node arguments are nodes of the list; links read through head/tail/prev_node/next_node; small-scope exhaustive, sampled beyond", ref="4 C08"),
+ "C09": dict(level=MC, engine="graphwalk+tracecheck", technique="TLA+ ADT specs (SortedSet.tla, SortedMap.tla = builtin set/dict semantics with ascending iteration) model-checked by TLC; graph walk from every initial collection; trace validation by TLC",
+             text="TLC exhaustively checks both specifications (no repeats, ascending iteration, later pair wins; negative controls must fail) from every initial collection of up to 3 elements (empty, unsorted, repeats; mapping and pair form) over abstract numbers concretised as mixed int/float, emits every transition, and the real SortedSet/SortedMap are driven through every (content, operation) pair including foreign-typed probes; random histories over 12 values are validated by TLC.",
+             note="numeric keys without NaN; foreign probes = str and None against non-empty content; pop/popitem may return any member; small-scope exhaustive, sampled beyond", ref="4 C09"),
 }
 PENDING = "check not built yet in this session (planned, see DESIGN.md section 4)"
 
